@@ -483,8 +483,17 @@ class BADS:
                 + "and plausible bounds should not be too close. "
                 + "Moving plausible bounds."
             )
-            plausible_lower_bounds = np.maximum(plausible_lower_bounds, LB_eff)
-            plausible_upper_bounds = np.minimum(plausible_upper_bounds, UB_eff)
+            moved_plb = np.maximum(plausible_lower_bounds, LB_eff)
+            moved_pub = np.minimum(plausible_upper_bounds, UB_eff)
+            # never let the adjustment collapse or invert a valid plausible
+            # range (narrow range next to a bound of a very wide hard box)
+            keep = moved_plb >= moved_pub
+            plausible_lower_bounds = np.where(
+                keep, plausible_lower_bounds, moved_plb
+            )
+            plausible_upper_bounds = np.where(
+                keep, plausible_upper_bounds, moved_pub
+            )
 
         # Check that all X0 are inside the plausible bounds,
         # move bounds otherwise
